@@ -100,12 +100,13 @@ Print Assumptions C10_entries_individually.
 
 (* The file has no moov.udta.meta.ilst yet: [udta]meta(hdlr, ilst, free) is inserted at the data start `off` of moov.udta, or of
    moov when there is no udta.  Same statement with an empty region; the ancestors (moov [, udta]) carry their old length + delta.
-   Precondition found by the proof: no offset table starts exactly at the insertion point (such a table would be the FIRST
-   child of moov / udta; mutagen compares `atom.offset > offset` and would not see that it moved). *)
+   __save_new calls __update_offsets with offset - 1, so every entry / base offset o >= off moves (mp4_shift (off - 1)): an atom
+   that starts exactly at the insertion point -- the first child of the container, or, when the container is empty and ends
+   moov, the moof directly behind it that a tfhd base-data-offset addresses -- has moved with everything behind the new atom.
+   No precondition about what starts at the insertion point is needed. *)
 Theorem C10_offsets_follow_data_new f ilst_data cb f' atoms path last rest :
   mp4_wf f = true -> mp4_atoms f = Ok atoms -> mp4_path atoms ILST_PATH = None ->
   mp4_insert_path atoms = Some path -> rev path = last :: rest ->
-  (forall T, In T (all_tabs atoms) -> ma_off T <> ma_off last + ma_hdr last) ->
   mp4_save f ilst_data cb = Ok f' ->
   let off := ma_off last + ma_hdr last in
   let data := mp4_new_insert cb f last ilst_data in
@@ -113,12 +114,12 @@ Theorem C10_offsets_follow_data_new f ilst_data cb f' atoms path last rest :
   let np := mp4_newpos off 0 delta in
   0 <= off <= zlen f /\ delta = zlen data /\
   (forall T, In T (mp4_stco_list atoms) ->
-     tab_entries 4 f' (np (ma_off T)) = map (mp4_shift off delta) (tab_entries 4 f (ma_off T))) /\
+     tab_entries 4 f' (np (ma_off T)) = map (mp4_shift (off - 1) delta) (tab_entries 4 f (ma_off T))) /\
   (forall T, In T (mp4_co64_list atoms) ->
-     tab_entries 8 f' (np (ma_off T)) = map (mp4_shift off delta) (tab_entries 8 f (ma_off T))) /\
+     tab_entries 8 f' (np (ma_off T)) = map (mp4_shift (off - 1) delta) (tab_entries 8 f (ma_off T))) /\
   (forall T, In T (mp4_tfhd_list atoms) -> tfhd_flag f (ma_off T) = true ->
      tfhd_flag f' (np (ma_off T)) = true /\
-     tfhd_base f' (np (ma_off T)) = mp4_shift off delta (tfhd_base f (ma_off T))) /\
+     tfhd_base f' (np (ma_off T)) = mp4_shift (off - 1) delta (tfhd_base f (ma_off T))) /\
   (forall L, In L (mp4_flat atoms) -> ma_kids L = None -> is_table_name L = false ->
      (ma_off L + ma_len L <= off \/ off <= ma_off L) ->
      agree f (ma_off L) f' (np (ma_off L)) (ma_len L)) /\
@@ -132,7 +133,6 @@ Print Assumptions C10_offsets_follow_data_new.
 Theorem C10_parents_consistent_new f ilst_data cb f' atoms path last rest it :
   mp4_wf f = true -> mp4_atoms f = Ok atoms -> mp4_path atoms ILST_PATH = None ->
   mp4_insert_path atoms = Some path -> rev path = last :: rest ->
-  (forall T, In T (all_tabs atoms) -> ma_off T <> ma_off last + ma_hdr last) ->
   ilst_wellformed ilst_data it -> mp4_height it <= 62 -> zlen ilst_data < 4611686018427387904 ->
   mp4_save f ilst_data cb = Ok f' ->
   exists atoms', mp4_atoms f' = Ok atoms' /\ mp4_forest_ok f' true atoms' 0 (zlen f') = true /\
